@@ -211,6 +211,7 @@ type Stream struct {
 	recvTerm    error // sticky terminal result of client RecvMsg
 
 	capWaiters [2]int
+	brokeClient, brokeServer bool
 
 	HandlerErr  error
 	HandlerDone bool
@@ -482,6 +483,7 @@ func (s *Stream) Break(client, server bool) {
 	n.mu.Lock()
 	defer n.mu.Unlock()
 	if client {
+		s.brokeClient = true
 		if s.cliErr == nil && s.recvTerm == nil {
 			s.cliErr = status.Error(codes.Unavailable, "connection error: injected failure")
 		}
@@ -491,6 +493,7 @@ func (s *Stream) Break(client, server bool) {
 		s.hdrReady = true
 	}
 	if server {
+		s.brokeServer = true
 		if !s.srvDone && s.srvErr == nil {
 			s.srvErr = status.Error(codes.Canceled, "context canceled")
 		}
@@ -499,6 +502,13 @@ func (s *Stream) Break(client, server bool) {
 		s.scancel()
 	}
 	n.cond.Broadcast()
+}
+
+// BrokenOneSide reports whether Break was applied to exactly one end.
+func (s *Stream) BrokenOneSide() bool {
+	s.net.mu.Lock()
+	defer s.net.mu.Unlock()
+	return s.brokeClient != s.brokeServer
 }
 
 // ServerContext returns the context handlers of this carrier stream see.
